@@ -534,7 +534,12 @@ impl Rule {
     pub fn validate(&self) -> crate::Result<bool> {
         let mut errors = vec![];
         for test in &self.true_positives {
-            if !(solver::solve(&self.detection, test.as_mapping().unwrap())) {
+            // NOTE: An example that is not a mapping can't be evaluated, so it fails its check
+            let matched = match test.as_mapping() {
+                Some(mapping) => solver::solve(&self.detection, mapping),
+                None => false,
+            };
+            if !matched {
                 errors.push(format!(
                     "failed to validate true positive check '{:?}'",
                     test
@@ -542,7 +547,11 @@ impl Rule {
             }
         }
         for test in &self.true_negatives {
-            if solver::solve(&self.detection, test.as_mapping().unwrap()) {
+            let matched = match test.as_mapping() {
+                Some(mapping) => solver::solve(&self.detection, mapping),
+                None => true,
+            };
+            if matched {
                 errors.push(format!(
                     "failed to validate true negative check '{:?}'",
                     test
